@@ -26,8 +26,8 @@
 import TaRs.Lemmas.CodecLemmas
 import TaRs.Lemmas.DataItem
 import TaRs.Lemmas.TrueRange
-import TaRs.Lemmas.OnBalanceVolume
-import TaRs.Lemmas.ExponentialMovingAverage
+import TaRs.Lemmas.Core.OnBalanceVolume
+import TaRs.Lemmas.Core.ExponentialMovingAverage
 import TaRs.Lemmas.SimpleMovingAverage
 import TaRs.Lemmas.WeightedMovingAverage
 import TaRs.Lemmas.StandardDeviation
@@ -37,12 +37,12 @@ import TaRs.Lemmas.Maximum
 import TaRs.Lemmas.EfficiencyRatio
 import TaRs.Lemmas.RateOfChange
 import TaRs.Lemmas.MoneyFlowIndex
-import TaRs.Lemmas.RelativeStrengthIndex
+import TaRs.Lemmas.Core.RelativeStrengthIndex
 import TaRs.Lemmas.FastStochastic
 import TaRs.Lemmas.SlowStochastic
 import TaRs.Lemmas.AverageTrueRange
-import TaRs.Lemmas.MovingAverageConvergenceDivergence
-import TaRs.Lemmas.PercentagePriceOscillator
+import TaRs.Lemmas.Core.MovingAverageConvergenceDivergence
+import TaRs.Lemmas.Core.PercentagePriceOscillator
 import TaRs.Lemmas.CommodityChannelIndex
 import TaRs.Lemmas.BollingerBands
 import TaRs.Lemmas.ChandelierExit
